@@ -146,10 +146,11 @@ prop(
     "C05",
     ["LolHtml.Thm.C05_Scope", "LolHtml.Thm.Full", "LolHtml.Thm.Full3"],
     [{"lane": "scope", "n_quick": 2000, "n_thorough": 10000},
-     {"lane": "full", "n_quick": 2000, "n_thorough": 40000}],
-    "lane scope: tag-event scripts (unclosed, mis-nested, void, foreign self-closing, removed content) x handler registrations (element/text/comments/end-tag/document) x cuts, real HtmlRewriter with logging handlers vs the model",
+     {"lane": "full", "n_quick": 2000, "n_thorough": 40000},
+     {"lane": "metacs", "n_quick": 2000, "n_thorough": 20000, "impl_only": True}],
+    "lane metacs (implementation only): ASCII documents with <meta charset> / http-equiv tags anywhere, run with adjust_charset_on_meta_tag off and on (the setting registers an internal `meta` element handler in front of the user's, shifting every handler index): the user's element / end-tag / comment / text handler invocations and the sink bytes must be identical; lane scope: tag-event scripts (unclosed, mis-nested, void, foreign self-closing, removed content) x handler registrations (element/text/comments/end-tag/document) x cuts, real HtmlRewriter with logging handlers vs the model",
     ["the matcher is an arbitrary function from start tags to sets of registered match ids (WfEvents); that the VM returns only registered ids is C04's; the link is Thm/Full3: every protocol event of the real controller model that ends without error is exactly one Controller.step of this package's model on the projected state (Full_refines_scope_start/_end/_other), its handler invocations are Spec.Scope.expected (Full_event_C05), and the VM inside follows selvm's Vm.step (Full_vm_run) — lexer-mode calls; scanner hints rely on C06's relex agreement",
-     "handler/memory errors, ESI tags, meta-charset handler id shift are not modelled", PKG_SCOPE],
+     "handler/memory errors and ESI tags are not modelled in package scope (lane full covers failing handlers; lane sel covers ESI); the meta-charset handler's id shift is covered by the implementation-only lane metacs", PKG_SCOPE],
     level_text=("Lean 4 theorems, for every handler script, registration, event list and matcher: the controller model refines a "
                 "reference scope specification (C05_refines), user counts equal the number of open matched elements "
                 "(C05_refcount), text/comment/doctype delivery iff in scope (C05_scope_*), per-token order = registration order "
